@@ -657,3 +657,6 @@ SUBCHECKS = [
                   "electrum prv / pub) built by the reference encoders from 3 keys: no other checksummed kind may accept it, and what the "
                   "native parser returns must equal the reference decode and re-serialise faithfully"),
 ]
+
+# thorough tier: coverage-guided campaigns (runs per worker, 4 workers each)
+FUZZ = {"unicode_text": 20000, "b58_structured": 20000, "colon_numeric_pairs": 20000}
